@@ -385,7 +385,7 @@ func c11adjOptions(dims []string, vals []string, skips []any) []c11adj {
 func c11run(w *report.W) {
 	seamconfReport(w)
 	lists := [][]string{{}, {"a"}, {"b"}, {"a", "b"}}
-	skips := []any{nil, false, true, "reason", "false"} // a string that spells false is still a string (the quantifier's fourth kind)
+	skips := []any{nil, false, true, "reason {{matrix.os}}", "false", "{{matrix}}"} // reasons carry tokens: a rejected permutation must not expand them in place // a string that spells false is still a string (the quantifier's fourth kind)
 	type scope struct {
 		dims      []string
 		maxAdj    int
@@ -645,7 +645,7 @@ func init() {
 	register(&report.Check{
 		ID: "C11",
 		Rule: "small scope fully open: matrices with an anonymous dimension, 0-2 (3 in the restricted scopes) named dimensions over {os,arch,v}, every value list ⊆ {a,b} incl. empty, " +
-			"0-2 adjustments each a tuple over {a,b,c} or malformed (missing / extra / renamed dimension) x skip in {absent,false,true,a reason string,the string \"false\"}, nil matrix; values containing commas / spaces / NUL in two dimensions (all adjustment and permutation tuples over six such values); long disjoint value lists (2..65 values per dimension, 2-3 dimensions; each dimension given its own first / last value, another dimension's, the adjustment's, an unknown one; under every explored iteration order); x every permutation " +
+			"0-2 adjustments each a tuple over {a,b,c} or malformed (missing / extra / renamed dimension) x skip in {absent,false,true,a reason with a named / an anonymous matrix token,the string \"false\"}, nil matrix; values containing commas / spaces / NUL in two dimensions (all adjustment and permutation tuples over six such values); long disjoint value lists (2..65 values per dimension, 2-3 dimensions; each dimension given its own first / last value, another dimension's, the adjustment's, an unknown one; under every explored iteration order); x every permutation " +
 			"= every map from every subset of (dimensions + one unknown) to {a,b,c} and the empty/nil one; built directly and (for <=N adjustments) through Parse of rendered YAML; " +
 			"verdict compared with the predicate of the statement through the public InterpolateMatrixPermutation; on reject deep snapshot + JSON unchanged; on accept the command " +
 			"carries the values. Seam: every iteration order of the four range loops for a 2-dimension sub-scope. Non-trivial = has adjustments and a non-empty permutation.",
